@@ -758,3 +758,174 @@ Proof.
   destruct (kernel_messages_never_panic ih ivs s (OpReplay x cp) Hi Hok Hp Hr Hb) as [((s'&r&H)&_)|[(_&H)|(_&H)]];
     rewrite H in E; [discriminate| |]; unfold site_replay_earlier, site_replay_refused, site_replay_fuel in E; discriminate.
 Qed.
+
+(** * Concrete runs: reachability by construction *)
+Fixpoint run (s : kstate) (ops : list op) : res kstate :=
+  match ops with
+  | [] => Ok s
+  | o :: rest => bind (step s o) (fun sr => run (fst sr) rest)
+  end.
+
+Definition op_bounded_b (o : op) : bool :=
+  match o with
+  | OpPH p => hd_height (ph_hdr p) + 1 <? two64
+  | OpReplay x _ => hd_height x + 1 <? two64
+  | _ => true
+  end.
+
+Definition op_wf_b (o : op) : bool :=
+  match o with
+  | OpPH p => pow_okb (hd_vals (ph_hdr p)) && pow_okb (hd_next (ph_hdr p))
+  | OpReplay x cp => pow_okb (hd_next x) && (cp_round cp <? two32)
+  | _ => true
+  end.
+
+Lemma op_bounded_b_ok o : op_bounded_b o = true -> op_bounded o.
+Proof. destruct o; cbn; try (intros _; exact I); intros H; apply N.ltb_lt in H; exact H. Qed.
+
+Lemma op_wf_b_ok o : op_wf_b o = true -> op_wf o.
+Proof.
+  destruct o as [p|m|m|x cp]; cbn; try (intros _; exact I); intros H; apply andb_true_iff in H as [H1 H2].
+  - split; apply pow_okb_ok; assumption.
+  - split; [apply pow_okb_ok; exact H1|apply N.ltb_lt; exact H2].
+Qed.
+
+Lemma run_reachable_a ih ivs ops : forall s s',
+  reachable_a ih ivs s -> forallb (fun o => op_bounded_b o && op_wf_b o) ops = true ->
+  run s ops = Ok s' -> reachable_a ih ivs s'.
+Proof.
+  induction ops as [|o rest IH]; intros s s' Hr Hf; cbn [run].
+  - intros E; inversion E; subst; exact Hr.
+  - cbn [forallb] in Hf. apply andb_true_iff in Hf as [Ho Hf]. apply andb_true_iff in Ho as [Ho1 Ho2].
+    destruct (step s o) as [[s1 r1]|] eqn:Hs; cbn [bind fst]; [|discriminate].
+    apply IH; [|exact Hf]. eapply ra_step; [exact Hr|apply op_bounded_b_ok; exact Ho1|apply op_wf_b_ok; exact Ho2|exact Hs].
+Qed.
+
+Lemma run_reachable_b ih ivs ops : forall s s',
+  reachable_b ih ivs s -> forallb op_bounded_b ops = true ->
+  run s ops = Ok s' -> reachable_b ih ivs s'.
+Proof.
+  induction ops as [|o rest IH]; intros s s' Hr Hf; cbn [run].
+  - intros E; inversion E; subst; exact Hr.
+  - cbn [forallb] in Hf. apply andb_true_iff in Hf as [Ho Hf].
+    destruct (step s o) as [[s1 r1]|] eqn:Hs; cbn [bind fst]; [|discriminate].
+    apply IH; [|exact Hf]. eapply rb_step; [exact Hr|apply op_bounded_b_ok; exact Ho|exact Hs].
+Qed.
+
+(** one validator (global key 7) with power 1, initial height 1 *)
+Definition ex_vs : valset := mk_valset [7] [1] [1] [2] true.
+(** the same validator with power 0: total power zero *)
+Definition ex_zero : valset := mk_valset [7] [0] [3] [4] true.
+
+Definition ex_hdr (vals next : valset) : hdr := mk_hdr [9] true 1 [] empty_cproof vals next.
+Definition ex_ph (vals next : valset) : ph := mk_ph (ex_hdr vals next) 0 (Some 7) (SProposal 7 [5] 0) [5].
+Definition ex_precommit (h r : N) (pkh target : bytes) : vmsg :=
+  mk_vmsg h r pkh [(target, [mk_ssig (keyid_encode 0) (SVote 7 KPrecommit h r target)])].
+
+Definition state_after (ops : list op) : kstate :=
+  match run (init_state 1 ex_vs) ops with Ok s => s | Panic _ => init_state 1 ex_vs end.
+
+Lemma state_after_reachable_a ops :
+  forallb (fun o => op_bounded_b o && op_wf_b o) ops = true ->
+  is_ok (run (init_state 1 ex_vs) ops) = true -> reachable_a 1 ex_vs (state_after ops).
+Proof.
+  intros Hf Hok. unfold state_after. destruct (run _ ops) as [s|] eqn:E; [|discriminate].
+  eapply run_reachable_a; [apply ra_init|exact Hf|exact E].
+Qed.
+
+Lemma state_after_reachable_b ops :
+  forallb op_bounded_b ops = true ->
+  is_ok (run (init_state 1 ex_vs) ops) = true -> reachable_b 1 ex_vs (state_after ops).
+Proof.
+  intros Hf Hok. unfold state_after. destruct (run _ ops) as [s|] eqn:E; [|discriminate].
+  eapply run_reachable_b; [apply rb_init|exact Hf|exact E].
+Qed.
+
+(** the hypotheses of the theorem are satisfiable *)
+Example ex_hypotheses : 1 <= 1 /\ vs_ok ex_vs = true /\ 0 < sum_pows (vs_pows ex_vs).
+Proof. vm_compute. repeat split; discriminate. Qed.
+
+(** ** Site 1 of [handle_replay] is reachable: a nil precommit of the whole power moves the mirror
+    to round 1; the driver then replays a header of that height with a round-0 commit proof. *)
+Definition ops_round1 : list op := [OpPrecommit (ex_precommit 1 0 [1] [])].
+
+Example replay_earlier_round_reachable :
+  reachable_a 1 ex_vs (state_after ops_round1) /\
+  replay_earlier_guard (state_after ops_round1) (ex_hdr ex_vs ex_vs) (mk_cproof 0 [1] []) = true /\
+  step (state_after ops_round1) (OpReplay (ex_hdr ex_vs ex_vs) (mk_cproof 0 [1] [])) = Panic site_replay_earlier.
+Proof.
+  split; [apply state_after_reachable_a; vm_compute; reflexivity|]. split; vm_compute; reflexivity.
+Qed.
+
+(** ** Site 3 is reachable: the header arrives as a proposed header in round 0 (round store and
+    round-0 view get it), the mirror moves to round 1 (whose view does not have it), and the same
+    header is then replayed with a round-1 commit proof: the round store refuses it. *)
+Definition ops_ph_round1 : list op := [OpPH (ex_ph ex_vs ex_vs); OpPrecommit (ex_precommit 1 0 [1] [])].
+
+Example replay_store_refused_reachable :
+  reachable_a 1 ex_vs (state_after ops_ph_round1) /\
+  replay_refused_guard (state_after ops_ph_round1) (ex_hdr ex_vs ex_vs) (mk_cproof 1 [1] []) = true /\
+  step (state_after ops_ph_round1) (OpReplay (ex_hdr ex_vs ex_vs) (mk_cproof 1 [1] [])) = Panic site_replay_refused.
+Proof.
+  split; [apply state_after_reachable_a; vm_compute; reflexivity|]. split; vm_compute; reflexivity.
+Qed.
+
+(** a replay that is accepted (the Ok branch of the theorem is inhabited as well) *)
+Example replay_accepted_example :
+  exists s', step (init_state 1 ex_vs)
+               (OpReplay (ex_hdr ex_vs ex_vs) (mk_cproof 0 [1] [([9], [mk_ssig (keyid_encode 0) (SVote 7 KPrecommit 1 0 [9])])])) = Ok (s', 0).
+Proof. eexists. vm_compute. reflexivity. Qed.
+
+(** * Without the admissibility of the carried validator sets the statement is FALSE *)
+
+(** Witness A (next validator set).  The only validator proposes, at the initial height, a header
+    whose NextValidators has total power 0 and precommits it; the mirror commits it and its voting
+    view for height 2 has available power 0.  The next precommit for height 2 (here: a nil
+    precommit by that validator) reaches ByzantineMajority(0). *)
+Definition ops_commit_zero_next : list op :=
+  [OpPH (ex_ph ex_vs ex_zero); OpPrecommit (ex_precommit 1 0 [1] [9])].
+
+Theorem message_panics_refuted :
+  exists ih ivs s o site,
+    1 <= ih /\ vs_ok ivs = true /\ 0 < sum_pows (vs_pows ivs) /\
+    reachable_b ih ivs s /\ op_bounded o /\ op_wf o /\
+    (exists m, o = OpPrecommit m) /\
+    step s o = Panic site.
+Proof.
+  exists 1, ex_vs, (state_after ops_commit_zero_next), (OpPrecommit (ex_precommit 2 0 [3] [])), "ByzantineMajority:13"%string.
+  split; [vm_compute; discriminate|]. split; [reflexivity|]. split; [vm_compute; reflexivity|].
+  split; [apply state_after_reachable_b; vm_compute; reflexivity|].
+  split; [exact I|]. split; [exact I|]. split; [eexists; reflexivity|].
+  vm_compute. reflexivity.
+Qed.
+
+(** the same state also dies on a prevote for the next round (ByzantineMinority(0)) *)
+Example message_panics_prevote :
+  step (state_after ops_commit_zero_next)
+       (OpPrevote (mk_vmsg 2 1 [3] [([], [mk_ssig (keyid_encode 0) (SVote 7 KPrevote 2 1 [])])])) =
+  Panic "ByzantineMinority:34".
+Proof. vm_compute. reflexivity. Qed.
+
+(** Witness B (the header's own validator set, which [handle_ph] never compares with the view's
+    set).  The committed header carries a Validators set of total power 0; the next proposed header
+    (itself perfectly well formed, with an empty previous commit proof) makes the
+    previous-commit-proof check call ByzantineMajority(0). *)
+Definition ops_commit_zero_vals : list op :=
+  [OpPH (ex_ph ex_zero ex_vs); OpPrecommit (ex_precommit 1 0 [1] [9])].
+
+Definition ex_ph2 : ph :=
+  mk_ph (mk_hdr [8] true 2 [9] (mk_cproof 0 [3] []) ex_vs ex_vs) 0 (Some 7) (SProposal 7 [6] 0) [6].
+
+Theorem message_panics_refuted_vals :
+  exists ih ivs s o site,
+    1 <= ih /\ vs_ok ivs = true /\ 0 < sum_pows (vs_pows ivs) /\
+    reachable_b ih ivs s /\ op_bounded o /\ op_wf o /\
+    (exists p, o = OpPH p) /\
+    step s o = Panic site.
+Proof.
+  exists 1, ex_vs, (state_after ops_commit_zero_vals), (OpPH ex_ph2), "ByzantineMajority:13"%string.
+  split; [vm_compute; discriminate|]. split; [reflexivity|]. split; [vm_compute; reflexivity|].
+  split; [apply state_after_reachable_b; vm_compute; reflexivity|].
+  split; [vm_compute; reflexivity|]. split; [split; vm_compute; reflexivity|]. split; [eexists; reflexivity|].
+  vm_compute. reflexivity.
+Qed.
